@@ -162,15 +162,37 @@ def thorough_parent(ctx, pid, seed):
                '--shard', '%d/%d' % (s, n), '--partial', out]
         procs.append((s, out, subprocess.Popen(cmd, cwd=bootstrap.VERIF, env=env,
                                                stdout=subprocess.PIPE, stderr=subprocess.STDOUT)))
+    # source 3: the repository's own tests as a workload under this property's contracts
+    mod = load_prop(pid)
+    if getattr(mod, 'REPO_TESTS_UNDER_CONTRACTS', False):
+        out = os.path.join(d, 'repotests.json')
+        repo_root = os.path.dirname(bootstrap.SRC)
+        env2 = dict(env, RV_PROP=pid, RV_PARTIAL=out, MPLBACKEND='Agg', VERIF_TIER='thorough',
+                    PYTHONPATH=os.pathsep.join([bootstrap.VERIF, bootstrap.SRC, bootstrap.DEPS]))
+        cmd = [sys.executable, '-W', 'ignore', '-m', 'pytest', os.path.join(repo_root, 'test'), '-q', '-p', 'no:cacheprovider',
+               '-p', 'rv.pytest_contracts', '--timeout=900']
+        procs.append(('repo-tests', out, subprocess.Popen(cmd, cwd=repo_root, env=env2, stdout=subprocess.PIPE,
+                                                          stderr=subprocess.STDOUT)))
     for s, out, p in procs:
         try:
             stdout, _ = p.communicate(timeout=HARD_WATCHDOG['thorough'])
         except subprocess.TimeoutExpired:
             p.kill()
-            ctx.flag_inconclusive('shard %d timed out' % s)
+            ctx.flag_inconclusive('shard %s timed out' % s)
+            continue
+        if s == 'repo-tests':
+            if not os.path.isfile(out):
+                ctx.flag_inconclusive('repository tests under contracts produced no result: %s'
+                                      % stdout.decode(errors='replace')[-300:])
+                continue
+            part = json.load(open(out))
+            ctx.extra['repo_tests_under_contracts'] = {
+                'pytest_exit': p.returncode, 'evaluations': part['evaluations'],
+                'contracts': {k: v for k, v in part['counters'].items() if k.startswith('contract:')}}
+            ctx.absorb(part)
             continue
         if p.returncode != 0 or not os.path.isfile(out):
-            ctx.flag_inconclusive('shard %d exited %s: %s' %
+            ctx.flag_inconclusive('shard %s exited %s: %s' %
                                   (s, p.returncode, stdout.decode(errors='replace')[-300:]))
             continue
         ctx.absorb(json.load(open(out)))
